@@ -6,8 +6,10 @@
 //! `shout` output there). A worker that dies is restarted by the driver; the request in flight
 //! is attributed the crash.
 
+mod arena;
 mod front;
 mod info;
+mod procs;
 mod prog;
 mod strs;
 mod util;
@@ -17,7 +19,9 @@ fn main() {
     let mode = args.get(1).map(String::as_str).unwrap_or("");
     match mode {
         "prog" => prog::worker(),
+        "arena" => arena::worker(),
         "info" => info::info(),
+        "procs" => procs::worker(),
         "strs" => strs::worker(),
         "front" => front::worker(),
         _ => {
